@@ -122,6 +122,35 @@ Fixpoint run_inst (v : wvariant) (discard_overflow : bool) (st : wstate) (t : Z)
       end
   end.
 
+(* ---------------------------------------------------------------------------------------- *)
+(* What a CONFIGURED composite rps profile means (specification side, used to judge the engine
+   against the profile as written, not against the instants the real schedule object hands out):
+   every segment starts at the finish of the previous one. *)
+Inductive segment :=
+| SOnce (n : nat)                          (* once: n tokens at the segment's start, no duration *)
+| SConst (period : Z) (n : nat) (dur : Z)  (* const: n tokens, the k-th at start + k*period; lasts dur *)
+| SPause (dur : Z)                         (* const 0 rps: no token, lasts dur *)
+| SUnl (dur : Z).                          (* unlimited: any number of tokens in [start, start+dur) *)
+
+Fixpoint const_offsets (start period : Z) (k : nat) (n : nat) : list Z :=
+  match n with
+  | O => []
+  | S m => (start + Z.of_nat k * period) :: const_offsets start period (S k) m
+  end.
+
+(* finite token offsets (in order) and the windows of the unlimited segments *)
+Fixpoint profile_offsets (start : Z) (segs : list segment) : list Z * list (Z * Z) :=
+  match segs with
+  | [] => ([], [])
+  | SOnce n :: r =>
+      let '(o, u) := profile_offsets start r in (repeat start n ++ o, u)
+  | SConst period n dur :: r =>
+      let '(o, u) := profile_offsets (start + dur) r in (const_offsets start period 0 n ++ o, u)
+  | SPause dur :: r => profile_offsets (start + dur) r
+  | SUnl dur :: r =>
+      let '(o, u) := profile_offsets (start + dur) r in (o, (start, dur) :: u)
+  end.
+
 (* The variant the correspondence run and the theorems are about: the tree as it is now. *)
 Definition wcurrent : wvariant := wfixed.
 
